@@ -277,6 +277,10 @@ func (c *vCluster) prefix(p int, timeouts int) {
 		c.prefixByzantineLedView()
 		return
 	}
+	if p == 8 {
+		c.prefixEarlyCommit()
+		return
+	}
 	if p == 5 {
 		env.Assume(c.byz == 2)
 	}
@@ -556,4 +560,38 @@ func (c *vCluster) prefixByzantineLedView() {
 		c.flush(lost)
 	}
 	env.Assume(c.nodes[cs[0]].m.state.View() == 5)
+}
+
+// prefixEarlyCommit (prefix 8, Byzantine member 3, nobody forges anything): a COMMIT is not a PREPARE.
+//   view 0: a genuine Byzantine COMMIT(X) reaches node 2 before the honest leader's proposal; the PREPAREs of nodes 1
+//           and 2 reach the leader only (it is genuinely prepared and sends COMMIT, which is lost); node 2 holds the
+//           proposal, its own PREPARE and one COMMIT - no certificate; whatever COMMITs node 2 sends, and the Byzantine
+//           one, reach the leader;
+//   view 1: the uncommitted nodes time out; their votes and a genuine proof-less Byzantine vote reach the correct
+//           leader 1; everything is then delivered and the Byzantine member goes along with what the others prepared.
+func (c *vCluster) prefixEarlyCommit() {
+	env.Assume(c.byz == 3)
+	net := c.wd.net
+	lost := func(from, to int, m interfaces.ConsensusMessage) bool { return false }
+	isType := func(t protocol.MessageType, v primitives.View) func(m interfaces.ConsensusMessage) bool {
+		return func(m interfaces.ConsensusMessage) bool { return m.MessageType() == t && m.View() == v }
+	}
+	x := c.nodes[0].bu.Requests[0].Hash
+	c.nodes[2].deliver(net.cm(c.byz, 1, 0, x).ToConsensusRawMessage())
+	c.flush(func(from, to int, m interfaces.ConsensusMessage) bool { return m.MessageType() == protocol.LEAN_HELIX_PREPREPARE })
+	for _, i := range []int{1, 2} {
+		c.handDeliver(i, 0, isType(protocol.LEAN_HELIX_PREPARE, 0))
+	}
+	c.handDeliver(2, 0, isType(protocol.LEAN_HELIX_COMMIT, 0))
+	c.nodes[0].deliver(net.cm(c.byz, 1, 0, x).ToConsensusRawMessage())
+	c.flush(lost)
+	for _, i := range c.correct() {
+		if len(c.nodes[i].commits) == 0 {
+			c.nodes[i].timeout()
+		}
+	}
+	c.nodes[1].deliver(net.vcm(c.byz, 1, 1, nil).ToConsensusRawMessage())
+	c.flush(nil)
+	c.byzFollow()
+	c.flush(nil)
 }
